@@ -228,6 +228,27 @@ def c11(ck):
             if L > 3 and rng.random() > (0.08 if quick else 0.25):
                 continue
             add("typeexpr", "interface a.b\nmethod M(f: %s)->()\n" % " ".join(tup).replace("a: ", "a: "), tup)
+    # the same without blanks between the tokens, for the wrapper tokens only: the language is
+    #   type := '?'? elem     elem := '[]' type | '[string]' type | 'int' | Name      (no '?' directly after '?')
+    def type_ok(t):
+        if t.startswith("?"):
+            t = t[1:]
+            if t.startswith("?"):
+                return False
+        if t.startswith("[]"):
+            return type_ok(t[2:])
+        if t.startswith("[string]"):
+            return type_ok(t[8:])
+        return t == "int" or re.fullmatch(r"[A-Z][A-Za-z0-9]*", t) is not None     # a builtin, or a type name (e.g. "Tint", "TT")
+    wtoks = ["int", "T", "?", "[]", "[string]"]
+    for L in range(1, (5 if quick else 7) + 1):
+        for tup in itertools.product(wtoks, repeat=L):
+            if L > 4 and rng.random() > (0.15 if quick else 0.5):
+                continue
+            e = "".join(tup)
+            for pos in ("method M(f: %s)->()", "method M()->(f: %s)", "type X (f: %s)\nmethod M()->()", "error E (f: %s)\nmethod M()->()",
+                        "method M(g: (h: %s))->()")[:(2 if quick and L > 3 else 5)]:
+                add("wrapexpr", "interface a.b\ntype T (z: int)\n" + pos % e + "\n", type_ok(e))
     # duplicate names, all kind x kind pairs, same and different order
     defs = {"method": "method %s() -> ()", "type": "type %s (a: int)", "error": "error %s (a: int)"}
     for k1 in defs:
@@ -250,6 +271,14 @@ def c11(ck):
             nd += 1
             if nd <= 5:
                 ck.tie_broken.append("model/implementation disagree on %s text %r: impl=%s model=%s" % (kind, text[:200], a[:200], model[cid][:200]))
+            if a.startswith("ok") != model[cid].startswith("ok") and kind != "dup":
+                # the model parser is proved to accept exactly the renderings of the grammar (C11_accepted_iff_rendered):
+                # a text on which the verdicts differ is accepted without following the grammar, or rejected although it does
+                ck.failures.append({"what": "the parser %s a text that the varlink grammar %s" % (
+                    ("accepts", "does not derive") if a.startswith("ok") else ("rejects", "derives")), "text": text[:800]})
+        if kind == "wrapexpr" and a.startswith("ok") != bool(info):
+            ck.failures.append({"what": "type expression %s although it %s of the form ['?'] {'[]' | '[string]' ['?']} (int | Name)" % (
+                "accepted" if a.startswith("ok") else "rejected", "is" if info else "is not"), "text": text[:300]})
         if kind == "valid" and not a.startswith("ok"):
             ck.failures.append({"what": "a text that follows the grammar was rejected", "text": text[:800], "result": a[:200]})
         if kind == "iname":
@@ -309,6 +338,12 @@ def c12(ck):
         texts.append(("nest", "interface a.b\nmethod M(a: " + "[]" * d + "int) -> ()\n"))
         texts.append(("nest", "interface a.b\nmethod M(a: " + "(a: " * d + "int" + ")" * (d - 1) + ") -> ()\n"))
         texts.append(("nest", "interface a.b\nmethod M(a: " + "?[][string]" * d + "?(x, y)) -> ()\n"))
+        # nested nullable anonymous structs: valid, truncated, and with a stray character innermost (the error lies deep
+        # inside alternatives the grammar can reach by more than one path)
+        texts.append(("nest", "interface a.b\ntype T " + "(a: ?" * d + "int" + ")" * d + "\nmethod M() -> ()\n"))
+        texts.append(("nest", "interface a.b\ntype T " + "(a: ?" * d + "int"))
+        texts.append(("nest", "interface a.b\ntype T " + "(a: ?" * d + "!" + ")" * d + "\nmethod M() -> ()\n"))
+        texts.append(("nest", "interface a.b\nmethod M(x: " + "?[](b: " * d + "?" + ")" * d + ") -> ()\n"))
     lines, meta = [], {}
     for i, (kind, t) in enumerate(texts):
         lines.append("t%d parse %s" % (i, hx(t)))
